@@ -137,13 +137,14 @@ def main():
                     meta["checks_run"] = res
                     json.dump(meta, open(mp, "w"), indent=1)
 
-    ts = [threading.Thread(target=worker, args=(k,)) for k in range(min(workers, max(n, 1)))]
+    off = int(os.environ.get("PAR_FIRST_WORKER", "0"))  # lets two invocations run side by side (w<off>..)
+    ts = [threading.Thread(target=worker, args=(k + off,)) for k in range(min(workers, max(n, 1)))]
     for t in ts:
         t.start()
     for t in ts:
         t.join()
     for k in range(0 if keep else workers):
-        w = os.path.join(BASE, f"w{k}")
+        w = os.path.join(BASE, f"w{k + off}")
         if os.path.exists(os.path.join(w, "repo")):
             sh(f"git -C /repo worktree remove --force {w}/repo")
         shutil.rmtree(w, ignore_errors=True)
